@@ -83,6 +83,7 @@ MUTANTS = {
         ("cn-low-depth-guard-removed", "aldy/cn.py", "        if total_cov < min_cov / 2.0:", "        if False:"),
     ],
     "C01": [
+        ("patch:own-c01-insertion-phase-anchor",),
         ("patch:own-c01-mnp-phase-record",),
         ("minus-strand-insertion-anchor", "aldy/gene.py", '                        op = f"ins{rev_comp(op[3:])}"\n                        pos += 1', '                        op = f"ins{rev_comp(op[3:])}"'),
         ("deletion-anchor-in-realignment", "aldy/sam.py", "                    p -= 1\n                    o = self.gene[p]", "                    o = self.gene[p]"),
